@@ -562,6 +562,12 @@ Lemma journal_cases_expected :
       Gen.Templates.journal_inputs.
 Proof. vm_compute. reflexivity. Qed.
 
+(* The caller's FROM / WHERE nodes are carried over as the SAME objects (Python `is`), not as
+   copies: Compiler.compile numbers positional placeholders by id(node) on the statement as
+   parsed, so a copied clause loses its %s parameters.  Observed on every sentinel statement. *)
+Lemma clauses_shared_tie : Gen.Templates.clauses_shared = true.
+Proof. vm_compute. reflexivity. Qed.
+
 (* the sentinel set does contain patterns with a double quote, and the pre-fix model differs there *)
 Lemma sentinels_cover_dquote :
   existsb (fun j => negb (no_dquote (or_empty (j_account j)))) Gen.Templates.journal_inputs = true.
